@@ -21,7 +21,7 @@ mv $WT/tests/seeded_demo.rs $OUT/
 echo "demo_without_patch_exit=$W (want 0)  demo_with_patch_exit=$D (want !=0)  suite_with_patch_exit=$S (want 0)" | tee $OUT/confirm.txt
 rm -rf $WT/target
 for C in $CHECKS; do
-  ( cd /verif && VERIF_REPO=$WT VERIF_WORK=/verif/.work/seedwork_$TAG VERIF_EVIDENCE_DIR=$OUT/evidence VERIF_REPLAY_DIR=$OUT/replays ./check $C > $OUT/check_$C.out 2>&1; echo "exit=$?" >> $OUT/check_$C.out )
+  ( cd /verif && VERIF_REPO=$WT VERIF_WORK=/verif/.work/seedwork_$TAG VERIF_EVIDENCE_DIR=$OUT/evidence VERIF_REPLAY_DIR=$OUT/replays ./check $C ${SEED_ONLY:+--only $SEED_ONLY} > $OUT/check_$C.out 2>&1; echo "exit=$?" >> $OUT/check_$C.out; [ -n "${SEED_ONLY:-}" ] && echo "restricted_to=--only $SEED_ONLY" >> $OUT/check_$C.out )
   echo "--- check $C:"; grep -E "VIOLATION|KNOWN-FINDING|INCONCLUSIVE|property=|exit=" $OUT/check_$C.out | cut -c1-300
 done
 git -C /repo worktree remove --force $WT
